@@ -178,6 +178,20 @@ PROPS = {
                      "(the property text excludes them)"],
         timeout=dict(quick=600, thorough=7200),
     ),
+    "C14": dict(
+        lean=["Upf.Props.C14"],
+        level="proof",
+        claim="markers_exact for every stored FAR list and every list of updates with distinct IDs: the emitted markers are exactly one per flagged update "
+              "of a known FAR, built from the FAR stored before the message (old peer, old TEID, UPF address of that interface), in order; none without the "
+              "flag, for unknown IDs, for creations; GTP-U port constant 2152 regenerated. Tied by T2: the packets the REAL agent writes to the "
+              "end-marker unixpacket socket, decoded with gopacket, after the datapath update was observed.",
+        note="Trusted: Lean kernel + standard axioms; gopacket (serialisation in the agent, parsing in the harness); go-pfcp codecs; BESS datapath only "
+             "(the UP4 PacketOut path shares UpdateFAR/addEndMarker and differs in the transport). Envelope: FAR IDs distinct within one message.",
+        rule="sessions with 1-3 downlink FARs (forwarding, buffering, flag on creation), 1-4 modifications each with 1-3 FAR updates: SNDEM / other flag / both / "
+             "flag without tunnel change / unknown FAR ID / invalid action (rejected) / flagged creation; with the feature on and off; non-trivial = an accepted request",
+        trusted_base=[GO_LIBS, "gopacket", "go-pfcp IE codecs", "fake BESS server, unixpacket socket"],
+        assumptions=["FAR IDs distinct within one message", "BESS datapath"],
+    ),
 }
 
 NOT_APPLICABLE = {}
